@@ -5,3 +5,7 @@ open MtailVerif.C23
 #print axioms format_parse_roundtrip_in_context
 #print axioms format_parse_roundtrip_at_level
 #print axioms format_parse_args_roundtrip
+#print axioms binLevel_is_yacc_level
+#print axioms opPrec_is_formatter_precedence
+#print axioms formatter_precedence_matches_grammar
+#print axioms source_shape
